@@ -229,3 +229,8 @@ func Run(e *ruleguard.Engine, t *Target, o RunOpts) (reports []Report, panicKind
 	err = e.Run(ctx, t.File)
 	return
 }
+
+// SourceImporter resolves imports from source (GOROOT and the module cache via go list).
+func SourceImporter(fset *token.FileSet) types.Importer {
+	return importer.ForCompiler(fset, "source", nil)
+}
